@@ -79,9 +79,17 @@ def make_clean(rng, fs, gctx):
                     for (dr, t, sh, pn) in m[2]:
                         if t == "interface" and sh:
                             continue
-                        if t in gctx.structs and gctx.structs[t]["objs"] > 0 and gctx.structs[t]["size"] <= 16:
-                            continue        # a small object-bearing struct is bundled with its handle (C02 K_interleave class)
                         ps.append((dr, t, sh, pn))
+                    # a small object-bearing struct that is bundled with another small value travels
+                    # with its handle inside the data buffer (C02 K_interleave class): drop it there,
+                    # keep it when it is the only small value of its direction
+                    def small(q):
+                        return q[2] is None and (q[1] in gen.PSIZE or (q[1] in gctx.structs and gctx.structs[q[1]]["size"] <= 16))
+                    def small_obj(q):
+                        return q[2] is None and q[1] in gctx.structs and gctx.structs[q[1]]["objs"] > 0 and gctx.structs[q[1]]["size"] <= 16
+                    for dr_ in ("in", "out"):
+                        while sum(1 for q in ps if q[0] == dr_ and small(q)) >= 2 and any(q[0] == dr_ and small_obj(q) for q in ps):
+                            ps.remove([q for q in ps if q[0] == dr_ and small_obj(q)][0])
                     m = (m[0], m[1], ps, m[3], m[4])
                 ms.append(m)
             f["decls"][i] = ("iface", d[1], base, ms)
@@ -495,6 +503,24 @@ def run(ctx_):
         jobs.append(("clean", fs, gctx, False, {}))
         if k % 3 == 0:
             jobs.append(("clean-untyped", fs, gctx, True, {}))
+    # every parameter kind alone, as input, as output and as both (shapes random choice rarely isolates)
+    kinds = {"prim": ("uint32", None), "f64": ("float64", None), "ssm": ("SSm", None), "sbg": ("SBg", None), "sos": ("SOs", None), "sob": ("SOb", None),
+             "buf": ("buffer", None), "parr": ("uint16", "[]"), "sarr": ("SSm", "[]"), "obj": ("interface", None), "tobj": ("IOther", None), "oarr": ("IOther", "[2]")}
+    kdecls = [("iface", "IOther", None, [("method", "nop", [], False, None)]),
+              ("struct", "SSm", [("uint32", 1, "a"), ("uint16", 1, "b"), ("uint8", 1, "c"), ("uint8", 1, "d")]),
+              ("struct", "SBg", [("uint64", 1, "a"), ("uint64", 1, "b"), ("uint64", 1, "c")]),
+              ("struct", "SOs", [("IOther", 1, "o")]),
+              ("struct", "SOb", [("interface", 1, "o"), ("uint64", 1, "a"), ("uint64", 1, "b")])]
+    kms = []
+    for kn, (t, sh) in kinds.items():
+        kms.append(("method", "mi_" + kn, [("in", t, sh, "p")], False, None))
+        kms.append(("method", "mo_" + kn, [("out", t, sh, "q")], False, None))
+        kms.append(("method", "mio_" + kn, [("in", t, sh, "p"), ("out", t, sh, "q")], False, None))
+    kfs = {"files": [{"path": "main.idl", "includes": [], "decls": kdecls + [("iface", "IKinds", None, kms)]}], "main": "main.idl", "idirs": []}
+    kctx = witness_ctx(kfs)
+    for nm, sz in (("SSm", 8), ("SBg", 24), ("SOs", 16), ("SOb", 32)):
+        kctx.structs[nm]["size"] = sz
+    jobs.append(("clean", kfs, kctx, False, {}))
     for cls, langs, fs in witness_cases():
         jobs.append(("witness", fs, witness_ctx(fs), False, {"class": cls, "langs": langs}))
     # parameter names: every (language, colliding name, kind) of the table and a sample of names outside it
